@@ -210,6 +210,15 @@ void genC16(Rng& r, KV& kv, bool e1) {
   kv.set("mult", r.pick<long>({1, 2, 4, 4}));
   kv.set("cost", r.range(0, 1));
   kv.set("burn", e1 ? r.range(0, 3) : r.pick<long>({0, 20}));
+  if (r.chance(1, 4)) {
+    // deep one-sided recursion: one functor per call recurses, far beyond the library's inline-depth
+    // cap (32), on a small, easily overloaded pool
+    kv.set("shape", r.range(1, 2));
+    kv.set("depth", r.range(30, e1 ? 50 : 90));
+    kv.set("arity", r.range(2, 4));
+    kv.set("n", r.range(1, 3));
+    kv.set("mult", r.pick<long>({1, 1, 2, 4}));
+  }
   if (e1) {
     kv.setu("mp", 2000000);
     kv.setu("fp", 600000);
@@ -321,7 +330,7 @@ void runC16(Case& c) {
     w->arity = c.p.i("arity");
     w->shape = c.p.i("shape");
     w->burn = c.p.i("burn");
-    w->budget = underE1() ? 60 : 3000;
+    w->budget = underE1() ? 120 : 3000;
     invokeNode(*w, (int)depth, 0);
     ts.wait();
     leaves = w->nextLeaf.load();
